@@ -13,7 +13,8 @@
 //  ->  {"op":"P","T":t,"U":u,"ts":[signed,digits],"us":[signed,digits],"enc":..,"ce":0|1,"c":[[a,b,mask],..]}
 //  ->  {"op":"R","T":t,"U":u,"ts":..,"us":..,"side":s,"c":[[a,[[lo,hi,mask],..]],..]}
 //        mask: eq=1 ne=2 lt=4 gt=8 le=16 ge=32;  ts/us: std::is_signed and std::numeric_limits<>::digits of the
-//        two types as the compiler reports them
+//        two types as the compiler reports them; every output line also carries "sig": bits 0..5 = the call of eq ne lt gt le ge
+//        is noexcept, bits 6..11 = its type is exactly bool (advisory facts, see IntCmpCheck.tla)
 // type ids: 0 int8  1 uint8  2 int16  3 uint16  4 int32  5 uint32  6 int64  7 uint64
 //           8 long long  9 unsigned long long   (standard integer types that are no fixed-width typedef here)
 //           10 char  11 wchar_t  12 char16_t  13 char32_t  14 bool   (integral, but not "integer types" in the standard's
@@ -120,6 +121,20 @@ template <class T, class U> __attribute__((noinline)) unsigned six(T a, U b)
 template <class T, class U> unsigned six_bits(std::uint64_t a, std::uint64_t b) { return six<T, U>(from_bits<T>(a), from_bits<U>(b)); }
 using six_fn = unsigned (*)(std::uint64_t, std::uint64_t);
 
+// ---- signature facts per ordered type pair (round 3; not part of the property statement, compared as an advisory):
+// bits 0..5: the call expression is noexcept (eq ne lt gt le ge); bits 6..11: its type is exactly bool
+template <class T, class U> unsigned sig_bits()
+{
+    T a = T(); U b = U();
+    (void)a; (void)b;
+    return (noexcept(xtl::cmp_equal(a, b)) ? 1u : 0u) | (noexcept(xtl::cmp_not_equal(a, b)) ? 2u : 0u) | (noexcept(xtl::cmp_less(a, b)) ? 4u : 0u)
+         | (noexcept(xtl::cmp_greater(a, b)) ? 8u : 0u) | (noexcept(xtl::cmp_less_equal(a, b)) ? 16u : 0u) | (noexcept(xtl::cmp_greater_equal(a, b)) ? 32u : 0u)
+         | (std::is_same<decltype(xtl::cmp_equal(a, b)), bool>::value ? 64u : 0u) | (std::is_same<decltype(xtl::cmp_not_equal(a, b)), bool>::value ? 128u : 0u)
+         | (std::is_same<decltype(xtl::cmp_less(a, b)), bool>::value ? 256u : 0u) | (std::is_same<decltype(xtl::cmp_greater(a, b)), bool>::value ? 512u : 0u)
+         | (std::is_same<decltype(xtl::cmp_less_equal(a, b)), bool>::value ? 1024u : 0u) | (std::is_same<decltype(xtl::cmp_greater_equal(a, b)), bool>::value ? 2048u : 0u);
+}
+using sig_fn = unsigned (*)();
+
 #ifdef CE_TABLE
 // ---- constant-expression use: boundary value i of T
 constexpr int NB = 7;
@@ -178,6 +193,12 @@ template <std::size_t... K> six_fn pick(int t, int u, std::index_sequence<K...>)
     return tab[t * NTYPES + u];
 }
 
+template <std::size_t... K> sig_fn pick_sig(int t, int u, std::index_sequence<K...>)
+{
+    static const sig_fn tab[NTYPES * NTYPES] = { &sig_bits<typename type_of<int(K / NTYPES)>::type, typename type_of<int(K % NTYPES)>::type>... };
+    return tab[t * NTYPES + u];
+}
+
 static wide read_value(const vj::value& v, bool limbs)
 {
     wide w;
@@ -209,7 +230,7 @@ static std::string head(const char* op, int t, int u)
     const type_ops& ou = ops(u);
     return std::string("{\"op\":\"") + op + "\",\"T\":" + std::to_string(t) + ",\"U\":" + std::to_string(u)
          + ",\"ts\":[" + std::to_string(ot.is_signed) + "," + std::to_string(ot.digits) + "],\"us\":[" + std::to_string(ou.is_signed) + ","
-         + std::to_string(ou.digits) + "]";
+         + std::to_string(ou.digits) + "],\"sig\":" + std::to_string(pick_sig(t, u, std::make_index_sequence<NTYPES * NTYPES>())());
 }
 
 static int run_line(const vj::value& ev, std::string& o)
